@@ -275,13 +275,26 @@ func cmdLexicalMutants(args []string) error {
 		_, toks := printSpec(s)
 		for i := 0; i <= len(toks); i++ {
 			for _, stray := range strays {
-				for _, glue := range []bool{false, true} {
-					ts := append(append(append([]PTok{}, toks[:i]...), PTok{K: "STRAY", Src: stray}), toks[i:]...)
+				// the stray text stands alone, is glued to the token before it, to the token after it, or the whole text has no blanks
+				for _, glue := range []string{"none", "left", "right", "all"} {
+					var ts []PTok
+					switch {
+					case glue == "left" && i > 0:
+						ts = append([]PTok{}, toks...)
+						ts[i-1].Src += stray
+					case glue == "right" && i < len(toks):
+						ts = append([]PTok{}, toks...)
+						ts[i].Src = stray + ts[i].Src
+					case glue == "left" || glue == "right":
+						continue
+					default:
+						ts = append(append(append([]PTok{}, toks[:i]...), PTok{K: "STRAY", Src: stray}), toks[i:]...)
+					}
 					for j := range ts {
 						ts[j].End = ts[j].K == ";"
 					}
 					sep := " "
-					if glue {
+					if glue == "all" {
 						sep = "" // no blanks at all: tokens and the stray text run together
 					}
 					leadCounter++
